@@ -16,7 +16,7 @@ import copy
 import itertools
 import threading
 
-from lib import e5ref, vtime, wire
+from lib import e5ref, gen, vtime, wire
 
 PROPERTY = "C12"
 LEVEL = "exploration"
@@ -102,7 +102,7 @@ class Run:
         self.h.data_values[30] = self.dv
         self.m = Model()
         self.hist = []
-        self.sysgen = itertools.count(0x30000000 + ctx.rng.randrange(1 << 16) * 512)
+        self.sysgen = gen.system_bytes(ctx.rng, 0x30000000 + ctx.rng.randrange(1 << 16) * 512, p=0.03)
         self.bad = False
         self.accepted = {"define": 0, "link": 0}
 
